@@ -8,7 +8,7 @@
    its failed credit check and its wait while the grant is applied (the interleaving CreditWake.tla
    shows to be the dangerous one). *)
 EXTENDS Integers, Sequences, TLC, Json
-CONSTANTS Depth, DcShift, Hook, Side     \* Side: "client" | "listener"
+CONSTANTS Depth, DcShift, Hook, Side, Mms     \* Mms > 0: the peer's max-message-size, so that SendM is split at link level (one credit, several transfers)     \* Side: "client" | "listener"
 
 Alphabet == {"Send", "SendM", "Grant0", "Grant1", "Grant2", "Grant1Lag", "Grant2Unset", "Drain1", "Drain2", "Echo"}
 VARIABLES script
@@ -28,7 +28,7 @@ Prefix == << [e |-> "Shifts", out |-> 0, inn |-> 0, dc_out |-> DcShift, dc_in |-
            [e |-> "AAcceptSession", s |-> "s1", cfg |-> [noi |-> 1000, iw |-> 100, ow |-> 100]],
            [e |-> "PFrame", perf |-> "begin", ch |-> 3, f |-> [rch |-> -1, noi |-> 7, iw |-> 5000, ow |-> 100]],
            [e |-> "AAcceptLink", l |-> "L1", s |-> "s1", cfg |-> [idc |-> 1000]] >>)
-  \o << [e |-> "PFrame", perf |-> "attach", ch |-> 3, f |-> [name |-> "L1", h |-> 5, role |-> "r", snd |-> 1, rcv |-> 0]] >>
+  \o << [e |-> "PFrame", perf |-> "attach", ch |-> 3, f |-> [name |-> "L1", h |-> 5, role |-> "r", snd |-> 1, rcv |-> 0, mms |-> IF Mms > 0 THEN Mms ELSE -1]] >>
 RECURSIVE Body(_, _, _)
 Body(sc, i, ns) ==
   IF i > Len(sc) THEN <<>> ELSE
@@ -50,6 +50,6 @@ HookBody == << [e |-> "HookArm", name |-> "credit.after_failed_check"],
                [e |-> "HookRelease", name |-> "credit.after_failed_check"] >>
 Suffix == << LFlow([seen |-> 0], 20, FALSE, FALSE), LFlow([seen |-> 0], 20, FALSE, FALSE) >>
 Done == Len(script) = Depth
-Emit == Done => PrintT(<<"SCRIPT", ToJson([side |-> Side, id |-> <<Side, DcShift, Hook>> \o script,
+Emit == Done => PrintT(<<"SCRIPT", ToJson([side |-> Side, id |-> <<Side, DcShift, Hook, Mms>> \o script,
                            ev |-> Prefix \o (IF Hook THEN HookBody ELSE <<>>) \o Body(script, 1, IF Hook THEN 1 ELSE 0) \o (IF Hook /\ Depth > 0 THEN <<>> ELSE Suffix)])>>)
 =============================================================================
